@@ -64,6 +64,24 @@ def generate(ctx):
         cab, members, _ = scenarios.small_cab(rng, comp=0, nblocks=1)
         data = pre + cab
         yield from one_case(rng, data, [(len(pre), cab, members)], [4, 32768], fam="cab.search.presig")
+    # a complete stray signature 4..19 bytes in front of a cabinet's own: the stray candidate's length fields overlap the real
+    # header (nearly always implausible, or unreadable as a cabinet), and the scan has to resume 4 bytes behind the stray "MSCF"
+    for d in range(4, 20):
+        cab, members, _ = scenarios.small_cab(rng, comp=rng.choice([0, 1]), nblocks=1)
+        lead = rng.choice([b"", b"zz", b"\x00" * 7])
+        data = lead + b"MSCF" + bytes(rng.choice(b"xyz\x00\x01") for _ in range(d - 4)) + cab + rng.choice([b"", b"tail"])
+        yield from one_case(rng, data, [(len(lead) + d, cab, members)], [rng.choice([4, 7, 21]), 32768], fam="cab.search.stray-sig")
+    # a look-alike that passes the plausibility test and has non-zero counts, but whose header runs past the end of the
+    # file, in front of real cabinets
+    for variant in range(3):
+        cab, members, _ = scenarios.small_cab(rng, comp=0, nblocks=1)
+        fake = bytearray(b"MSCF" + bytes(32))
+        struct.pack_into("<I", fake, 8, 5000); struct.pack_into("<I", fake, 16, 44)
+        struct.pack_into("<HH", fake, 26, [65535, 3, 1][variant], 1)
+        if variant == 1: struct.pack_into("<H", fake, 30, 4)             # reserve flag: the reserve sizes are then read
+        data = bytes(fake[:[36, 36, 30][variant]]) + b"qq" + cab
+        if variant == 2: data = cab + b"pad" + bytes(fake[:30])           # fewer than 36 bytes left in the file
+        yield from one_case(rng, data, [((0 if variant == 2 else len(data) - len(cab)), cab, members)], [64, 32768], fam="cab.search.lookalike-eof")
     for i in range(n):
         data, planted = make_file(rng)
         bufs = rng.sample(BUFS, 2 if ctx.tier == "quick" else 4)
